@@ -47,6 +47,11 @@ def plugin_run(vectors, count):
             derived_file.write("from cutplace import checks, fields\n\n\nclass ShoutFieldFormat(fields.ChoiceFieldFormat):\n    pass\n\n\n"
                                "class KeyCheck(checks.IsUniqueCheck):\n    pass\n\n\n"
                                "class DecimalFieldFormat(fields.DecimalFieldFormat):\n    \"\"\"Takes the place of the class it extends.\"\"\"\n")
+        # a second plugin folder with a module of the SAME file name that defines something else: both folders count
+        second_folder = os.path.join(folder, "more_plugins")
+        os.makedirs(second_folder)
+        with open(os.path.join(second_folder, "derived_plugin.py"), "w", encoding="utf-8") as derived_file:
+            derived_file.write("from cutplace import fields\n\n\nclass OtherFieldFormat(fields.TextFieldFormat):\n    pass\n")
         jobs_path = os.path.join(folder, "jobs.json")
         sample = [v for v in vectors if len(v["hist"]) == 1][:count]
         with open(jobs_path, "w", encoding="utf-8") as jobs_file:
@@ -70,11 +75,12 @@ def descendants(cls):
 before_fields = descendants(fields.AbstractFieldFormat)
 before_checks = descendants(checks.AbstractCheck)
 interface.import_plugins(%(folder)r)
-# the caller keeps nothing from import_plugins(): whatever the folder defines has to survive a collection
+interface.import_plugins(%(second)r)
+# the caller keeps nothing from import_plugins(): whatever the folders define has to survive a collection
 gc.collect()
 new_fields = sorted(c.__name__ for c in descendants(fields.AbstractFieldFormat) - before_fields)
 new_checks = sorted(c.__name__ for c in descendants(checks.AbstractCheck) - before_checks)
-if new_fields != ["DecimalFieldFormat", "RecordingFieldFormat", "ShoutFieldFormat"] or new_checks != ["KeyCheck", "RecordingCheck"]:
+if new_fields != ["DecimalFieldFormat", "OtherFieldFormat", "RecordingFieldFormat", "ShoutFieldFormat"] or new_checks != ["KeyCheck", "RecordingCheck"]:
     print("PLUGINPROBLEM after import_plugins() and a garbage collection the classes of the folder are %%r and %%r" %% (new_fields, new_checks))
     interface.import_plugins(%(folder)r)
     keep = descendants(fields.AbstractFieldFormat) | descendants(checks.AbstractCheck)
@@ -108,7 +114,7 @@ for vec in json.load(open(%(jobs)r)):
     findings = session_check.replay_history(vec, "delimited")
     results.append([[index, problems] for index, problems, signature, observed in findings])
 print("RESULTS " + json.dumps(results))
-''' % {"repo": core.REPO, "verif": core.VERIF, "folder": plugin_folder, "jobs": jobs_path})
+''' % {"repo": core.REPO, "verif": core.VERIF, "folder": plugin_folder, "second": second_folder, "jobs": jobs_path})
         env = dict(os.environ)
         env.pop("VERIF_CALL_LOG", None)
         process = subprocess.run(["/venv/bin/python", script], stdout=subprocess.PIPE, stderr=subprocess.STDOUT,
